@@ -100,7 +100,11 @@ def existence_patterns(ctx, rule='A5p'):
     fn = ctx.fn(f'{NODES}:ConnectionChoiceNode.get_assignment_encoding_args')
     ep = fn.nested.get('_exist_process')
     if ep is None:
-        raise AnalysisError('get_assignment_encoding_args._exist_process vanished')
+        # extracted into a method: the helper that evaluates the combined degree of a group per scenario
+        ep = next((u for u in unit_functions(ctx.prog, fn)[1:]
+                   if any(isinstance(c, ast.Call) and call_name(c) == 'get_combined_deg' for c in walk_fn(u))), None)
+    if ep is None:
+        raise AnalysisError('get_assignment_encoding_args: per-scenario existence processing not found')
     ctx.touch(ep)
     t = FnText(ctx, ep)
     ok = 'if not existence_mask[flat_idx_map[conn_node_]]' in t and 'exists[ii] = False' in t
@@ -152,7 +156,12 @@ def existence_patterns(ctx, rule='A5p'):
            'the combined degree of a group is the set of sums of one allowed degree per member (open-ended: sum '
            'of the minima, no upper limit)', '')
     ra = ctx.fn(f'{NODES}:ConnectorDegreeGroupingNode.get_repeated_allowed')
-    ok = 'if connector.repeated_allowed' in FnText(ctx, ra)
+    # some member allowing repeated connections makes the group allow them: the result is true under a test of a
+    # member's flag (loop + return True, any(...), a comprehension)
+    ok = any(isinstance(x, ast.Attribute) and x.attr == 'repeated_allowed' and
+             not (isinstance(x.value, ast.Name) and x.value.id == 'self') for x in walk_fn(ra)) and \
+        (any(isinstance(c, ast.Call) and isinstance(c.func, ast.Name) and c.func.id == 'any' for c in walk_fn(ra)) or
+         any(isinstance(r, ast.Return) and isinstance(r.value, ast.Constant) and r.value.value is True for r in walk_fn(ra)))
     ctx.ob(rule, fkey(ra, rule, 'repeated-if-any-member'), ok, ra.where, '', '')
 
 
